@@ -928,7 +928,8 @@ def run_api(api, theory, cfg):
 
 def transforms_for(rng, n_random):
     """(s, subst) pairs: powers of two, powers of ten, arbitrary factors over 8 decades, and the index substitution"""
-    out = [(2.0 ** -13, False), (2.0 ** 13, False), (1e-4, False), (1e4, True), (1.0, True), (1e-6, False)]   # 1e-6: microns -> metres
+    out = [(2.0 ** -13, False), (2.0 ** 13, False), (1e-4, False), (1e4, True), (1.0, True), (1e-6, False),   # 1e-6: microns -> metres
+           (1e-8, False)]                                                                                 # a 0.5 um radius becomes 5e-9
     for _ in range(n_random):
         out.append((lg(rng, 1e-4, 1e4), rng.random() < 0.4))
     return out
@@ -1025,7 +1026,7 @@ def stage_sequence(ctx):
     import numpy as np
     ths = _theories()
     rng = ctx.subrng("sequence")
-    seq = [(1e-6, False), (1e-3, False), (1.0, True), (1e6, False), (3.7e-6, True)]
+    seq = [(1e-6, False), (1e-3, False), (1.0, True), (1e6, False), (3.7e-6, True), (1e-8, False)]
     for name, th in ths.items():
         if name == "Lens(Tmatrix)" and ctx.tier != "thorough":
             continue
